@@ -1,7 +1,153 @@
-/- line-protocol handler for model "h1resp" (stub until its model is built) -/
+/- line-protocol handler for model "h1resp" (C04): same ops and canonical output as
+   harness/inproc/h_h1resp.c -/
+import LtVerif.Model.H1Resp
+import LtVerif.Model.NetWrite
 namespace Driver
+open LtVerif LtVerif.B
 
+namespace H1RespDrv
+
+/-- data pattern shared with the C harness -/
+def pat (seed i : Nat) : UInt8 := ((seed * 131 + i * 7 + i / 251) % 256).toUInt8
+
+def patBytes (seed len : Nat) : Bytes := (List.range len).map (pat seed)
+
+def fnv1a (bs : Bytes) : UInt32 :=
+  bs.foldl (fun h b => (h ^^^ b.toUInt32) * 16777619) 2166136261
+
+def hex8 (v : UInt32) : String :=
+  let n := v.toNat
+  String.ofList ((List.range 8).map fun i =>
+    Char.ofNat (hexDigitLC ((n / 16 ^ (7 - i)) % 16).toUInt8).toNat)
+
+def parseSched (s : String) : Option (List WrRes) :=
+  if s = "-" then some []
+  else (s.splitOn ",").mapM fun t =>
+    match t with
+    | "A" => some WrRes.eagain
+    | "I" => some WrRes.eintr
+    | "P" => some WrRes.epipe
+    | "R" => some WrRes.econnreset
+    | "V" => some WrRes.einval
+    | "X" => some WrRes.eio
+    | _ => t.toNat?.map WrRes.ok
+
+def parseChunk (t : String) : Option Chunk :=
+  let cs := t.toList
+  let nums := ((String.ofList cs.tail).splitOn ".").mapM String.toNat?
+  match cs.head?, nums with
+  | some 'm', some [seed, len, off] => some (.mem (patBytes seed len) off)
+  | some 'f', some [seed, flen, off, fend] => some (.file (patBytes seed flen) off fend)
+  | some 'F', some [seed, flen, off, fend] => some (.file (patBytes seed flen) off fend)
+  | _, _ => none
+
+def layout (q : Cq) : String :=
+  if q.isEmpty then "-"
+  else String.intercalate "." (q.map fun c =>
+    (if c.isMem then "M" else "F") ++ toString c.remLen)
+
+def sysStr : Sys → String
+  | .writev cnt total => "v" ++ toString cnt ++ ":" ++ toString total
+  | .write len => "w" ++ toString len
+  | .sendfile count off => "s" ++ toString count ++ "@" ++ toString off
+
+def nwLine (b max sched : String) (chunks : List String) : String :=
+  let backend : Option Backend := if b = "w" then some .writev else if b = "s" then some .sendfile else none
+  match backend, max.toNat?, parseSched sched, chunks.mapM parseChunk with
+  | some be, some mx, some sc, some q =>
+    let (rc, calls, st) := drive be mx { q := q, sched := sc }
+    "rc=" ++ toString rc ++ " calls=" ++ toString calls ++ " out=" ++ toString st.out ++
+      " acc=" ++ toString st.acc.length ++ ":" ++ hex8 (fnv1a st.acc) ++ " ff=" ++ toString st.faults ++
+      " q=" ++ layout st.q ++ " sys=" ++
+      (if st.trace.isEmpty then "-" else String.intercalate "," (st.trace.map sysStr))
+  | _, _, _, _ => "bad-op"
+
+def parseHdrs (s : String) : Option (List Hdr) :=
+  if s = "-" then some []
+  else (s.splitOn ",").foldlM (fun hs t =>
+    match t.splitOn ":" with
+    | [op, k, v] =>
+      match ofHex k, ofHex v with
+      | some kb, some vb =>
+        if op = "i" then some (Hdrs.insert hs kb vb) else some (Hdrs.set hs kb vb)
+      | _, _ => none
+    | _ => none) []
+
+/-- the date the harness pins `log_epoch_secs` to -/
+def fixedDate : Bytes := ofString "Sun, 06 Nov 1994 08:49:37 GMT"
+
+def b01 (b : Bool) : String := if b then "1" else "0"
+
+def prepLine (status meth ver fin ka flags hdrs qbody : String) (pieces : List String) : String :=
+  match status.toNat?, ver.toNat?, fin.toNat?, ka.toNat?, flags.toNat?, parseHdrs hdrs, ofHex qbody,
+        pieces.mapM ofHex with
+  | some st, some v, some f, some k, some fl, some hs, some qb, some ps =>
+    let m : Meth := if meth = "H" then .head else if meth = "P" then .post
+                    else if meth = "C" then .connect else .get
+    let bit (n : Nat) : Bool := fl / n % 2 = 1
+    let d : RespIn :=
+      { status := st, meth := m, ver11 := v ≠ 0, finished := f ≠ 0, keepAlive := k ≠ 0,
+        hasHandler := bit 1, errorIntercept := bit 2, kaReqExceeded := bit 4, kaIdleZero := bit 8,
+        reqBodyUnread := bit 16, serverTag := if bit 32 then some (ofString "lighttpd/ltv") else none,
+        closeNormally := bit 64, hdrs := hs, queued := qb, pieces := ps }
+    let o := respond d fixedDate
+    "ka=" ++ b01 o.keepAlive ++ " fin=" ++ b01 o.finished ++ " ch=" ++ b01 o.sendChunked ++
+      " hlen=" ++ toString o.head.length ++ " wire=" ++ toHex (o.head ++ o.body)
+  | _, _, _, _, _, _, _, _ => "bad-op"
+
+/-- expected framing summary for an end-to-end exchange:
+    e2e <status> <method> <ver> <fin> <ka> <flags> <declared-cl|-> <bodylen>
+    -> cl=<n|-> te=<0|1> conn=<hex|-> len=<wire body length> ka=<0|1> -/
+def e2eLine (status meth ver fin ka flags cl blen : String) : String :=
+  match status.toNat?, ver.toNat?, fin.toNat?, ka.toNat?, flags.toNat?, blen.toNat? with
+  | some st, some v, some f, some k, some fl, some bl =>
+    let m : Meth := if meth = "H" then .head else if meth = "P" then .post
+                    else if meth = "C" then .connect else .get
+    let bit (n : Nat) : Bool := fl / n % 2 = 1
+    let hs : List Hdr := if cl = "-" then [] else [⟨nContentLength, ofString cl⟩]
+    let body := List.replicate bl (120 : UInt8)
+    let d : RespIn :=
+      { status := st, meth := m, ver11 := v ≠ 0, finished := f ≠ 0, keepAlive := k ≠ 0,
+        hasHandler := bit 1, errorIntercept := bit 2, kaReqExceeded := bit 4, kaIdleZero := bit 8,
+        reqBodyUnread := bit 16, serverTag := none, closeNormally := bit 64, hdrs := hs,
+        queued := if f ≠ 0 then body else [], pieces := if f ≠ 0 then [] else [body] }
+    let o := respond d fixedDate
+    let sh (k : Bytes) : String := match Hdrs.get o.hdrs k with
+      | some v => if v.isEmpty then "-" else toHex v
+      | none => "-"
+    "cl=" ++ (match Hdrs.get o.hdrs nContentLength with
+              | some v => if v.isEmpty then "-" else String.ofList (v.map fun b => Char.ofNat b.toNat)
+              | none => "-") ++
+      " te=" ++ b01 (Hdrs.has o.hdrs nTransferEncoding) ++ " conn=" ++ sh nConnection ++
+      " len=" ++ toString o.body.length ++ " ka=" ++ b01 o.keepAlive
+  | _, _, _, _, _, _ => "bad-op"
+
+def clenLine (n : String) : String :=
+  match n.toNat? with
+  | some k =>
+    if k = 0 then toHex (chunkLenLine 0 ++ [cr, lf])
+    else toHex (chunkLenLine k) ++ "<file>" ++ toHex [cr, lf]
+  | none => "bad-op"
+
+end H1RespDrv
+
+open H1RespDrv in
 def h1respLine : List String → String
+  | "nw" :: b :: max :: sched :: chunks => if chunks.isEmpty then "bad-op" else nwLine b max sched chunks
+  | "prep" :: status :: meth :: ver :: fin :: ka :: flags :: hdrs :: qbody :: pieces =>
+    prepLine status meth ver fin ka flags hdrs qbody pieces
+  | ["e2e", status, meth, ver, fin, ka, flags, cl, blen] => e2eLine status meth ver fin ka flags cl blen
+  | ["enc", e, h] =>
+    match e.toNat?, ofHex h with
+    | some n, some b => if n ≤ 3 then toHex (encodeStr n b) else "bad-op"
+    | _, _ => "bad-op"
+  | ["redir", ab, status, sch, auth, path, query] =>
+    match ab.toNat?, status.toNat?, ofHex sch, ofHex auth, ofHex path, ofHex query with
+    | some a, some s, some sc, some au, some p, some q =>
+      let pfx : Bytes := if a ≠ 0 then sc ++ ofString "://" ++ au else []
+      toString (if s ≥ 300 then s else 0) ++ " " ++ toHex (redirectLocation pfx p q)
+    | _, _, _, _, _, _ => "bad-op"
+  | ["clen", n] => clenLine n
   | _ => "bad-op"
 
 end Driver
